@@ -1,0 +1,72 @@
+//go:build verif
+
+package auditd
+
+// Contracts for the verification tooling (build tag "verif"). Comment-only: never compiled into the daemon.
+// Ghost traces maintained by the assumed contracts of go-libaudit:
+//   recvd(ch, j)          j-th value received from ch            pushmsg(k)  k-th message pushed to the reassembler
+//   pushedfor(j) = k+1    the line received j-th was pushed k-th pushsrc(k)  receive index of the line pushed k-th
+//   msgline(m)            the line ParseLogLine built m from
+//@ ghost g_parse_err : Int
+//@ ghost g_co_event : Int
+//@ ghost g_co_err : Int
+//@ ghost g_au_calls : Int
+//@ ghost g_au_lastev : Int
+//@ ghost g_au_lastret : Int
+//@ nonnil logger
+//@ chaninv error : v != nil
+
+//@ pred Pushed(lines, j) := pushedfor(j) > 0 && pushedfor(j) <= pushlen && pushsrc(pushedfor(j) - 1) == j && alloc(pushmsg(pushedfor(j) - 1)) && pushmsg(pushedfor(j) - 1) != 0
+//@   | && msgline(pushmsg(pushedfor(j) - 1)) == recvd(lines, j)
+
+//@ pred IsParseErr(e) := dyn(e) == typeid("*processors/auditd.parseAuditLogsError")
+
+//@ func parseAuditLogs
+//@   blocks cancellable
+//@   requires ctx != nil && reass != nil && lines != nil
+//@   modifies pushes, "G!recvlen", "G!recvd!*", "G!cancelled", g_parse_err
+//@   allocates "F!auditd.parseAuditLogsError!*"
+//@   ensures[otherchans] forall c ref :: c != lines ==> recvlen(c) == old(recvlen(c))
+//@   assert_at PushMessage[parsed] msg != nil && msgline(msg) == line && line != ""
+//@   ensures[nonnil] result != nil
+//@   ensures[cause] (cancelled(ctx) && !IsParseErr(result)) || (IsParseErr(result) && recvlen(lines) > old(recvlen(lines))
+//@   |   && recvd(lines, recvlen(lines) - 1) != "" && g_parse_err != 0 && cast(result, "*processors/auditd.parseAuditLogsError").inner == g_parse_err)
+//@   ensures[all] forall j int :: old(recvlen(lines)) <= j && j < recvlen(lines) - ite(IsParseErr(result), 1, 0) ==> recvd(lines, j) == "" || Pushed(lines, j)
+//@   ensures[once] forall k int :: old(pushlen) <= k && k < pushlen ==> old(recvlen(lines)) <= pushsrc(k) && pushsrc(k) < recvlen(lines) && pushedfor(pushsrc(k)) == k + 1
+//@   ensures[order] forall k int :: old(pushlen) <= k && k + 1 < pushlen ==> pushsrc(k) < pushsrc(k + 1)
+//@   loop parseAuditLogs#1 invariant[all] forall j int :: old(recvlen(lines)) <= j && j < recvlen(lines) ==> recvd(lines, j) == "" || Pushed(lines, j)
+//@   loop parseAuditLogs#1 invariant[once] forall k int :: old(pushlen) <= k && k < pushlen ==> old(recvlen(lines)) <= pushsrc(k) && pushsrc(k) < recvlen(lines) && pushedfor(pushsrc(k)) == k + 1
+//@   loop parseAuditLogs#1 invariant[order] (forall k int :: old(pushlen) <= k && k + 1 < pushlen ==> pushsrc(k) < pushsrc(k + 1)) && pushlen >= old(pushlen) && recvlen(lines) >= old(recvlen(lines))
+//@   loop parseAuditLogs#1 invariant[otherchans] forall c ref :: c != lines ==> recvlen(c) == old(recvlen(c))
+//@   loop parseAuditLogs#1 invariant[nocancel] !cancelled(ctx) || old(cancelled(ctx))
+
+//@ func maintainReassemblerLoop
+//@   blocks cancellable
+//@   requires ctx != nil && reassembler != nil
+//@   loop maintainReassemblerLoop#1 invariant[t] t != nil
+
+//@ func (*reassemblerCB).ReassemblyComplete
+//@   requires s != nil && s.au != nil && chancap(s.errors) >= 1 && pending(s.errors) >= 0
+//@   ensures[once] g_au_calls == old(g_au_calls) || g_au_calls == old(g_au_calls) + 1
+//@   ensures[handed] g_co_err == nil && !(cast(g_co_event, "*aucoalesce.Event").Timestamp < s.after) ==> g_au_calls == old(g_au_calls) + 1 && g_au_lastev == g_co_event
+//@   ensures[skipped] g_co_err != nil || cast(g_co_event, "*aucoalesce.Event").Timestamp < s.after ==> g_au_calls == old(g_au_calls)
+//@   ensures[retained] g_co_err != nil || (g_au_calls == old(g_au_calls) + 1 && g_au_lastret != nil) ==> pending(s.errors) >= 1
+
+//@ func (*Auditd).Read
+//@   blocks cancellable
+//@   selects ctx.Done, staleDataTicker.C, o.Logins, parseAuditLogsDone, reassemblerErrors
+//@   requires o != nil && ctx != nil && o.Health != nil && HealthOK(o.Health) && o.EventW != nil && o.Audits != nil
+//@   requires (o.Logins == nil || alloc(o.Logins)) && alloc(o.Audits)
+//@   ensures[nonnil] result != nil
+//@   assert_at (*sessionTracker).DeleteUsersWithoutLoginsBefore[cutoff] t == clock - 60000000000
+//@   assert_at (*sessionTracker).DeleteRemoteUserLoginsBefore[cutoff] t == clock - 60000000000
+//@   loop Read#1 invariant[inv] tracker != nil && TrackerInv(tracker) && staleDataTicker != nil && tickperiod(staleDataTicker) == 60000000000
+//@   loop Read#1 invariant[chans] reassembler != nil && fresh(parseAuditLogsDone) && (o.Logins == nil || old(alloc(o.Logins)))
+//@   loop Read#1 invariant[cap] chancap(parseAuditLogsDone) == 1
+//@   loop Read#1 invariant[sent] sentlen(parseAuditLogsDone) == 0
+//@   loop Read#1 invariant[recv] recvlen(parseAuditLogsDone) == 0
+//@   loop Read#1 invariant[frame] kept("F!auditd.Auditd!*")
+
+// The goroutine of Read that runs the line parser: what it sends is the parser's (non-nil) error.
+//@ func (*Auditd).Read$1
+//@   requires ctx != nil && reassembler != nil && o != nil && o.Audits != nil && parseAuditLogsDone != nil
